@@ -105,11 +105,13 @@ Definition int_halved (d : dir) (ep : bool) : list Z :=
   if ep then [0%Z; (-1)%Z] else match d with Dpp => [0%Z] | _ => [] end.
 Definition pyidx (size : nat) (z : Z) : nat :=
   if (z <? 0)%Z then Z.to_nat (Z.of_nat size + z) else Z.to_nat z.
-Definition intWeights (d : dir) (ep : bool) (size M N : nat) : list T :=
-  let base := odiv O (o1 O) (onat O (wdiv d M N)) in
-  map (fun k => fold_right (fun z w => if (pyidx size z =? k)%nat then half w else w) base
-                           (int_halved d ep))
+(** weights/pi from the divisor and the list of halved entries *)
+Definition intWeightsH (halved : list Z) (divisor size : nat) : list T :=
+  let base := odiv O (o1 O) (onat O divisor) in
+  map (fun k => fold_right (fun z w => if (pyidx size z =? k)%nat then half w else w) base halved)
       (seq 0 size).
+Definition intWeights (d : dir) (ep : bool) (size M N : nat) : list T :=
+  intWeightsH (int_halved d ep) (wdiv d M N) size.
 (** (1 - x^2) * (weight/pi)^2 : the square of the factor multiplying the coefficients *)
 Definition intFactorSq (d : dir) (ep : bool) (grid : list T) (M N : nat) : list T :=
   let g := trim d ep grid in
